@@ -37,6 +37,11 @@ def run(ctx):
     rp = fw.corr(ctx, "proposal", 14 if ctx.thorough() else 2, timeout=1500)
     fw.report_corr(ctx, "proposal", rp, known_features=lambda f: {"class": _halt_class(f)})
     if rp is not None:
+        # a disagreement comes with the concrete operation (state dump + proposal bytes) on which the handler left the model
+        for m in rp["mismatches"][:1]:
+            for f in ctx.failures:
+                if f.kind == "correspondence" and f.what.endswith("suite proposal") and f.replay is None:
+                    f.replay = {"suite": "proposal", "seed": ctx.seed, "impl": m["impl"], "model": m["model"], "history": m["history"][-6:]}
         st = rp["stats"]
         # the generator must have reached the situations the theorems are about (otherwise the agreement is vacuous)
         for k in ("block.with_verified_items", "byz.verdict_reject", "byz.verdict_accept", "preblock.height_written",
